@@ -119,8 +119,17 @@ class P:
             p = self.pat()
             self.eat(")")
             return ("psome", p)
+        if v == "_":
+            self.next()
+            return ("pwild",)
         if k == "id":
             self.next()
+            if self.at("::"):
+                path = v
+                while self.at("::"):
+                    self.next()
+                    path += "::" + self.next()[1]
+                return ("ppath", path)
             return ("pvar", v)
         raise Unsupported(f"pattern {v!r}")
 
@@ -130,6 +139,11 @@ class P:
         stmts, tail = [], None
         while not self.at("}"):
             if self.at(";"):
+                self.next()
+                continue
+            if self.at("use"):          # `use std::cmp::Ordering;`
+                while not self.at(";"):
+                    self.next()
                 self.next()
                 continue
             if self.at("let"):
@@ -459,7 +473,8 @@ def ty_lean(t):
     if isinstance(t, tuple) and t[0] == "tuple":
         return "(" + " × ".join(ty_lean(x) for x in t[1]) + ")"
     if isinstance(t, tuple) and t[0] == "opt":
-        return "Option " + ty_lean(t[1]) if not isinstance(t[1], tuple) else "Option " + ty_lean(t[1])
+        inner = ty_lean(t[1])
+        return "Option " + (f"({inner})" if " " in inner else inner)
     return t
 
 
@@ -769,6 +784,46 @@ class Emit:
             body = "(\n" + indent(btxt) + ")"
             return (f"(GenAgg.{e[2]}.run sqrt ((List.range' {a} {n_txt}).map fun {lname(cl[1][0][1])} => {body})"
                     + "".join(" " + x for x in args) + ")"), "OptF"
+        if (k == "field" and e[2] == "0" and e[1][0] == "mcall" and e[1][1] == ("path", "self") and e[1][2] == "vfold_n"
+                and len(e[1][3]) == 2 and e[1][3][0] == ("tuple", []) and e[1][3][1][0] == "closure"):
+            # `self.vfold_n((), |(), _| {}).0`: the count of valid elements
+            cl = e[1][3][1]
+            if len(cl[1]) != 2 or cl[2] != ("block", [], None):
+                raise Unsupported("unit vfold_n closure")
+            return "(vfoldN (fun (_ : Unit) (_ : Rat) => ()) () xs).1", "Nat"
+        if k == "mcall" and e[2] in ("find", "fold") and e[3] and e[3][-1][0] == "closure":
+            into = ("mcall", ("path", "self"), "into_iter", [])
+            src = "xs" if e[1] == into else ("xs.reverse" if e[1] == ("mcall", into, "rev", []) else None)
+            if src is None:
+                raise Unsupported(f".{e[2]}() receiver")
+            cl = e[3][-1]
+            if e[2] == "find":
+                # `.find(|v| p(v))`: the first element satisfying `p`, `None` if there is none
+                if len(e[3]) != 1 or len(cl[1]) != 1 or cl[1][0][0] != "pvar":
+                    raise Unsupported(".find() shape")
+                env2 = dict(env)
+                env2[cl[1][0][1]] = "Elem"
+                if assigned_outer(cl[2]):
+                    raise Unsupported(".find() closure assigns")
+                b, tb = self.effect(cl[2], env2, [], None)
+                if tb != "Bool":
+                    raise Unsupported(".find() predicate")
+                return f"({src}.find? fun {lname(cl[1][0][1])} => {b})", ("opt", "Elem")
+            if len(e[3]) != 2 or len(cl[1]) != 2 or any(q[0] != "pvar" for q in cl[1]) or src != "xs":
+                raise Unsupported(".fold() shape")
+            itxt, ity = self.ex0(e[3][0], env)
+            if ity != "Nat":
+                raise Unsupported(".fold() accumulator")
+            env2 = dict(env)
+            env2[cl[1][0][1]] = ity
+            env2[cl[1][1][1]] = "Elem"
+            if assigned_outer(cl[2]):
+                raise Unsupported(".fold() closure assigns")
+            b, tb = self.effect(cl[2], env2, [], None)
+            if tb != ity:
+                raise Unsupported(".fold() closure result")
+            body = "(" + b + ")" if "\n" not in b else "(\n" + indent(b) + ")"
+            return f"(List.foldl (fun {lname(cl[1][0][1])} {lname(cl[1][1][1])} => {body}) {itxt} xs)", ity
         if k == "field":
             t, ty = self.ex0(e[1], env)
             if not (isinstance(ty, tuple) and ty[0] == "tuple"):
@@ -1102,6 +1157,25 @@ class Emit:
                 e_txt, e_ty = self.effect(e[3], dict(env), outs, expect)
             t_txt, e_txt, ty = self.join(e, env, env, outs, t_txt, t_ty, e_txt, e_ty, expect)
             return f"if {ctxt} then\n{indent(t_txt)}\nelse\n{indent(e_txt)}", ty
+        if (k == "iflet" and e[1][0] == "psome" and e[1][1][0] == "ppath" and e[2][0] == "mcall"
+                and e[2][2] == "partial_cmp" and len(e[2][3]) == 1):
+            # `if let Some(Ordering::X) = a.partial_cmp(b)` on non-null inner values: `a cmp b = X`
+            omap = {"Ordering::Less": ".lt", "Ordering::Equal": ".eq", "Ordering::Greater": ".gt",
+                    "Less": ".lt", "Equal": ".eq", "Greater": ".gt"}
+            if e[1][1][1] not in omap:
+                raise Unsupported("ordering pattern")
+            a, ta = self.ex0(e[2][1], env)
+            b, tb = self.ex0(e[2][3][0], env)
+            if ta != "Rat" or tb != "Rat":
+                raise Unsupported("partial_cmp operands")
+            t_txt, t_ty = self.stmts(e[3][1], e[3][2], dict(env), outs, expect)
+            if e[4] is None:
+                e_txt, e_ty = self.stmts([], None, dict(env), outs, None)
+            else:
+                e_txt, e_ty = self.effect(e[4], dict(env), outs, expect)
+            if t_ty != e_ty:
+                raise Unsupported("if let branches of different types")
+            return f"if decide (cmpRat {a} {b} = {omap[e[1][1][1]]}) then\n{indent(t_txt)}\nelse\n{indent(e_txt)}", t_ty
         if k == "iflet":
             p, scrut = e[1], e[2]
             if p[0] != "psome":
@@ -1291,9 +1365,13 @@ class Emit:
                     want = ann if ann in ("Elem", "OptNat", "OptF") else None
                     if p[0] == "pvar" and p[1] in self.nan_vars and s[2]:
                         want = "OptF"
+                    if want is None and e == ("path", "None") and p[0] == "pvar" and p[1] in getattr(self, "none_types", {}):
+                        want = self.none_types[p[1]]
                     txt, ty = self.ex(e, env, want)
                     if ty == "NoneLit":
                         raise Unsupported("let of an untyped None")
+                    if want in ("Elem", "OptNat") and txt == "none":
+                        txt = f"(none : {ty_lean(want)})"
                     tmp = dict(env)
                     ptxt = self.bind_pat(p, ty, tmp)
                     lines.append(f"let {ptxt} := {txt}")
